@@ -187,6 +187,62 @@ theorem copyWithin_args_inbounds (target start : Int) (fin : Option Int) (len : 
 
 example : relIndex (-2) 5 = 3 ∧ relIndex (-9) 5 = 0 ∧ relIndex 7 5 = 5 ∧ relIndex 2 5 = 2 := by decide
 
+/-! ### %TypedArray%.prototype.fill -/
+
+/-- `fill` keeps the buffer's length and changes no byte outside the elements [k, k + n) of the view -/
+theorem fillBytes_frame (mem : List Nat) (off sz k : Nat) (bs : List Nat) (hbs : bs.length = sz) : ∀ (n : Nat),
+    off + (k + n) * sz ≤ mem.length →
+    (fillBytes mem off sz k bs n).length = mem.length ∧
+    ∀ j, (j < off + k * sz ∨ off + (k + n) * sz ≤ j) → (fillBytes mem off sz k bs n)[j]? = mem[j]? := by
+  intro n
+  induction n with
+  | zero => intro _; exact ⟨rfl, fun _ _ => rfl⟩
+  | succ n ih =>
+    intro h
+    have e1 : (k + (n + 1)) * sz = (k + n) * sz + sz := by rw [← Nat.add_assoc, Nat.succ_mul]
+    obtain ⟨l1, f1⟩ := ih (by omega)
+    have hb : off + (k + n) * sz + bs.length ≤ (fillBytes mem off sz k bs n).length := by rw [l1, hbs]; omega
+    simp only [fillBytes]
+    refine ⟨by rw [writeAt_length _ _ _ hb, l1], fun j hj => ?_⟩
+    have hk : k * sz ≤ (k + n) * sz := Nat.mul_le_mul_right _ (by omega)
+    rw [writeAt_frame _ _ _ hb j (by rw [hbs]; omega)]
+    exact f1 j (by omega)
+
+/-- every element of [k, k + n) reads back as the stored bytes -/
+theorem fillBytes_reads (mem : List Nat) (off sz k : Nat) (bs : List Nat) (hbs : bs.length = sz) : ∀ (n : Nat),
+    off + (k + n) * sz ≤ mem.length → ∀ i, i < n → readAt (fillBytes mem off sz k bs n) (off + (k + i) * sz) sz = bs := by
+  intro n
+  induction n with
+  | zero => intro _ i hi; omega
+  | succ n ih =>
+    intro h i hi
+    have e1 : (k + (n + 1)) * sz = (k + n) * sz + sz := by rw [← Nat.add_assoc, Nat.succ_mul]
+    obtain ⟨l1, _⟩ := fillBytes_frame mem off sz k bs hbs n (by omega)
+    have hb : off + (k + n) * sz + bs.length ≤ (fillBytes mem off sz k bs n).length := by rw [l1, hbs]; omega
+    simp only [fillBytes]
+    by_cases hin : i = n
+    · subst hin
+      have := readAt_writeAt (fillBytes mem off sz k bs i) (off + (k + i) * sz) bs hb
+      rw [hbs] at this; exact this
+    · have hlt : i < n := by omega
+      have hprev := ih (by omega) i hlt
+      -- the later store lies entirely above element i
+      have hle : (k + i) * sz + sz ≤ (k + n) * sz := by
+        have : (k + i + 1) * sz ≤ (k + n) * sz := Nat.mul_le_mul_right _ (by omega)
+        rw [Nat.succ_mul] at this; exact this
+      have hsame : readAt (writeAt (fillBytes mem off sz k bs n) (off + (k + n) * sz) bs) (off + (k + i) * sz) sz =
+          readAt (fillBytes mem off sz k bs n) (off + (k + i) * sz) sz := by
+        unfold readAt
+        apply List.ext_getElem?
+        intro j
+        simp only [List.getElem?_take, List.getElem?_drop]
+        by_cases hj : j < sz
+        · simp only [hj, ↓reduceIte]
+          have hlt2 : off + (k + i) * sz + j < off + (k + n) * sz := by omega
+          exact writeAt_frame _ _ _ hb _ (Or.inl hlt2)
+        · simp [hj]
+      exact hsame.trans hprev
+
 -- non-vacuity: overlapping either way
 example : copyWithinSpec [0, 1, 2, 3, 4, 5, 6, 7] 8 0 2 4 = [0, 1, 0, 1, 2, 3, 6, 7] := by decide
 example : copyWithinSpec [0, 1, 2, 3, 4, 5, 6, 7] 8 2 0 4 = [2, 3, 4, 5, 4, 5, 6, 7] := by decide
